@@ -88,3 +88,67 @@ Definition chk_graph_exact (g : list node_t) : bool :=
   dna_list_eqb (sort_dna (graph_kmers K stranded g)) retained &&
   subsetb (graph_links K stranded g) spec_links && subsetb spec_links (graph_links K stranded g).
 End Exact.
+
+(* ---- unitig graphs: the nodes are exactly the maximal unbranched paths of the link set --------------------------
+   Everything is read off the graph's own link set L (a list of canonical (K+1)-mers) and a join predicate on
+   canonical k-mers: the right / left links of an ORIENTED k-mer x, and when the step x -> y is a merge
+   (mirrors the static conditions of try_extend_kmer / try_extend_node: sole link on both facing sides, no
+   palindrome when unstranded, y is another k-mer, join_test). *)
+Section Unitig.
+Variable K : nat.
+Variable stranded : bool.
+Variable kjoin : dna -> dna -> bool.
+Variable L : list dna.
+
+Definition has_link (w : dna) : bool := existsb (dna_eqb (cn stranded w)) L.
+Definition rlinks (x : dna) : list N := filter (fun b => has_link (x ++ [b])) [0; 1; 2; 3].
+Definition llinks (x : dna) : list N := filter (fun b => has_link (b :: x)) [0; 1; 2; 3].
+Definition palb (x : dna) : bool := negb stranded && is_palindrome x.
+Definition mergeableb (x y : dna) : bool :=
+  match rlinks x, llinks y with
+  | [b], [c] => dna_eqb y (tl x ++ [b]) && (c =? hd 0 x) && negb (palb x) && negb (palb y) &&
+                negb (dna_eqb (cn stranded x) (cn stranded y)) && kjoin (cn stranded x) (cn stranded y)
+  | _, _ => false
+  end.
+
+(* consecutive k-mers of a node, plus the closing pair (last, first) of a possible cycle; both strands *)
+Definition inner_pairs (n : node_t) : list (dna * dna) := let ks := kmers K (nd_seq n) in combine ks (tl ks).
+Definition node_pairs (n : node_t) : list (dna * dna) :=
+  let ks := kmers K (nd_seq n) in inner_pairs n ++ [(last ks [], hd [] ks)].
+Definition opairs (n : node_t) : list (dna * dna) :=
+  node_pairs n ++ (if stranded then [] else map (fun p => (rc (snd p), rc (fst p))) (node_pairs n)).
+Definition okmers (n : node_t) : list dna :=
+  kmers K (nd_seq n) ++ (if stranded then [] else map rc (kmers K (nd_seq n))).
+Definition adjacent_inb (g : list node_t) (x y : dna) : bool :=
+  existsb (fun n => existsb (fun p => dna_eqb (fst p) x && dna_eqb (snd p) y) (opairs n)) g.
+
+Definition node_wfb (n : node_t) : bool := wf_dnab (nd_seq n) && Nat.leb K (length (nd_seq n)).
+(* U2: every step inside a node is a merge;  U3: every merge of the link set is a step inside a node (or closes it) *)
+Definition chk_unbranched (g : list node_t) : bool := forallb (fun n => forallb (fun p => mergeableb (fst p) (snd p)) (inner_pairs n)) g.
+Definition chk_maximal (g : list node_t) : bool :=
+  forallb (fun n => forallb (fun x => forallb (fun b =>
+     let y := tl x ++ [b] in negb (mergeableb x y) || adjacent_inb g x y) [0; 1; 2; 3]) (okmers n)) g.
+End Unitig.
+
+(* ---- payloads against Layer S: ids = ranks of the node's k-mers; colour = labels of the reads containing a k-mer *)
+Section Payload.
+Variable K : nat.
+Variable stranded : bool.
+Variable mode : N.
+Variable lreads : list (dna * N).
+Definition kmer_colour (x : dna) : N :=
+  fold_left (fun m r => if existsb (fun w => dna_eqb (cn stranded w) x) (kmers K (fst r))
+                        then N.lor m (N.shiftl 1 (N.land (snd r) 7)) else m) lreads 0.
+Definition kjoin_of (x y : dna) : bool := (mode =? 0) || (kmer_colour x =? kmer_colour y).
+Definition chk_payload_s (g : list node_t) : bool :=
+  forallb (fun n =>
+    N_list_eqb (sort_N (nd_ids n)) (sort_N (map rank (node_kmers K stranded n))) &&
+    (if mode =? 0 then existsb (fun k => kmer_colour k =? nd_colour n) (node_kmers K stranded n)
+     else forallb (fun k => kmer_colour k =? nd_colour n) (node_kmers K stranded n))) g.
+(* all hypotheses about ONE graph that the uniqueness theorem needs, besides graph_exact *)
+Definition chk_unitig (g : list node_t) : bool :=
+  Nat.leb 1 K && forallb (node_wfb K) g &&
+  chk_unbranched K stranded kjoin_of (graph_links K stranded g) g &&
+  chk_maximal K stranded kjoin_of (graph_links K stranded g) g &&
+  chk_payload_s g.
+End Payload.
